@@ -321,3 +321,30 @@ func vHarnessCreateDID() {
 		vCheck(err2 != nil, "C04/C05: an accepted creation is rejected when submitted again")
 	}
 }
+
+// C17: the DID query handler returns a result or an error for every request.
+func vHarnessQueryDIDTotal() {
+	ctx, k := vEnvDid()
+	w := vNewWorld()
+	did := vNondetAtom("did")
+	vAssume(did != "")
+	ids := []string{vNondetAtom("idA"), vNondetAtom("idB")}
+	_, kind := vStoredState(ctx, k, w, did, ids)
+	if vNondetBool("nilReq") {
+		_, err := k.DID(sdk.WrapSDKContext(ctx), nil)
+		vCheck(err != nil, "C17: nil request is an error")
+		return
+	}
+	q := vNondetAtom("query")
+	if vNondetBool("askStored") {
+		q = vB64(did)
+	}
+	res, err := k.DID(sdk.WrapSDKContext(ctx), &types.QueryDIDRequest{DidBase64: q})
+	if err == nil {
+		vCover("did query answered")
+		vCheck(res.DidDocumentWithSeq != nil && res.DidDocumentWithSeq.Document != nil, "C17/C05: an answered DID query carries a document")
+		vCheck(kind != 2 || q != vB64(did), "C05: a deactivated DID is reported as not found")
+	} else {
+		vCover("did query error")
+	}
+}
